@@ -6,6 +6,9 @@ def instances():
         out.append(Inst(id="c19.getcmd.%s.o%d" % (shape, o), props=["C19"], harness="h_c19.cpp", entry="c19_getcmd", tus=["apps/main_options.cpp"], defs=['VX_ARGS="%s"' % shape, "VX_O=%d" % o],
                         unwind=10, timeout=600, tier="quick" if len(shape) <= 3 else "thorough",
                         bounds="argument vector shape %s (O recognised option no. %d.., N first non-option, A arbitrary), arguments <= 2 bytes" % (shape, o), inputs="argument bytes"))
+    for shape in ("NA", "NAA"):
+        out.append(Inst(id="c19.getcmd.dash.%s" % shape, props=["C19"], harness="h_c19.cpp", entry="c19_getcmd", tus=["apps/main_options.cpp"], defs=['VX_ARGS="%s"' % shape, "VX_DASH=1"],
+                        unwind=10, timeout=600, bounds="program given as \"-\" (standard input) followed by arbitrary arguments (may look like options)", inputs="argument bytes"))
     out.append(Inst(id="c19.getcmd.dash.ONA", props=["C19"], harness="h_c19.cpp", entry="c19_getcmd", tus=["apps/main_options.cpp"], defs=['VX_ARGS="ONA"', "VX_DASH=1"],
                     unwind=10, timeout=600, bounds="shape ONA with the program given as \"-\" (standard input)", inputs="argument bytes, which option"))
     return out
